@@ -661,7 +661,7 @@ def write_pdf(matrix, matrix_size, out, scale=1, border=None, dark='#000',
     creation_date = f"{time.strftime('%Y%m%d%H%M%S')}{(time.timezone // 3600):+03d}'{(abs(time.timezone) % 60):02d}'"
     cmds = []
     append_cmd = cmds.append
-    if scale > 1:
+    if scale != 1:
         append_cmd(f'{scale} 0 0 {scale} 0 0 cm')
     if light is not None:
         # If the background color is defined, a rect is drawn in the background
